@@ -866,7 +866,7 @@ package litefs
 //@   on call DB.ApplyLTXNoLock assert stage == 5 && locked && arg1 == ltxFilename && arg2 == false ; then stage = (ret0 == nil ? 6 : stage)
 //@   on call GuardSet.Unlock assert locked ; then locked = false
 //@   on return assert !locked
-//@   ensures   err == nil ==> (stage == 5 && ltxFilename == "") || stage == 6
+//@   proves    err == nil ==> (stage == 5 && ltxFilename == "") || stage == 6
 //@   nopanic
 
 // ===========================================================================
